@@ -12,8 +12,7 @@ def timeOf : Cell → Option GoTime
   | _ => none
 
 /-- ascending distinct buckets -/
-def bucketsAsc (bs : List GoTime) : List GoTime :=
-  (bs.eraseDups).mergeSort (fun a b => decide (a.unix ≤ b.unix))
+def bucketsAsc (bs : List GoTime) : List GoTime := Frame.sortedBuckets bs.eraseDups
 
 def resampleSpec (ω : Oracle) (f : Frame) (k : Str) (freq : Str) (agg : AggFn) : Option Frame :=
   if !f.has k then none
